@@ -51,6 +51,8 @@ def settings_for(cfg: dict) -> List[list]:
         [37, "int", cfg.get("watermark", 305419896)],
         [54, "ptr", _pad(cfg.get("host_header", "").encode(), 128)],
     ]
+    # further settings the session does not depend on: unknown indices (legal; they keep a synthetic name) and a few known ones
+    s += [list(x) for x in cfg.get("extra", [])]
     return s
 
 
@@ -198,4 +200,22 @@ def gen_config(rng, allow_uri_append=False, allow_static_param=True, rsa=None):
         "peer": {"strip_b64url_pad": rng.random() < 0.5, "idle": rng.choice(["empty", "transformed"]),
                  "task_pad": rng.choice(["A", "zero", "random"])},
     }
+    if rng.random() < 0.4:
+        extra = []
+        used = set()
+        for _ in range(rng.randint(1, 4)):
+            r = rng.random()
+            if r < 0.6:
+                idx = rng.choice([rng.randint(100, 400), rng.randint(401, 65535)])       # unknown setting index
+                t = rng.choice(["short", "int", "ptr"])
+                val = rng.getrandbits(16) if t == "short" else rng.getrandbits(32) if t == "int" else \
+                    hx(bytes(rng.getrandbits(8) for _ in range(rng.choice([0, 1, 8, 32]))))
+            elif r < 0.8:
+                idx, t, val = rng.choice([29, 30]), "ptr", _pad(("%windir%\\syswow64\\" + _word(rng, 3, 8) + ".exe").encode(), 64)
+            else:
+                idx, t, val = rng.choice([35, 38, 39]), "short", rng.choice([0, 1, 2])
+            if idx not in used:
+                used.add(idx)
+                extra.append([idx, t, val])
+        cfg["extra"] = extra
     return cfg
